@@ -395,7 +395,17 @@ def check(pid, tier, seed, replay=None):
     # ---- 2. harness
     pkgs = sorted({p for p in getattr(mod, "PACKAGES", ["hcore"])})
     if hasattr(mod, "prepare"):
-        mod.prepare(seed, tier)
+        try:
+            mod.prepare(seed, tier)
+        except (Exception, SystemExit) as ex:
+            # a crate the check has to build per configuration / generate does not build against this tree (e.g. the library no longer
+            # compiles without `alloc`): the property is no longer shown to hold; say so instead of dying without a verdict
+            log(f"preparation failed: {ex}")
+            payload = {"property": pid, "kind": "harness-build-failure", "output": str(ex)[-3000:]}
+            p = write_replay(pid, "build", payload)
+            print(f"VIOLATION property={pid} replay={p} no-failing-input-found")
+            write_evidence(pid, tier, seed, mod, theorems, 0, [], {}, t0, 1, notes + ["preparation of the harness failed"], leanchecker)
+            return 1
     rc, out = cargo_build(pkgs)
     build_note = None
     tries = 0
